@@ -21,12 +21,46 @@
 //     -> <T|H> conns=<connections made> logs=<sorted per-peer callback logs: C connection, I input/request (collapsed), D disconnection>
 //            after_disc=<callbacks seen for a peer after its disconnection> fd_delta=<open descriptors at the end - idle baseline>
 //            stale=<fresh connections that received something else than exactly their own answer>
+// the standard headers first: the tables of Tcp::Transport (peers, toWrite, timers) are read through "#define private public"
+#include <algorithm>
+#include <array>
+#include <atomic>
+#include <bitset>
+#include <chrono>
+#include <condition_variable>
+#include <cstring>
+#include <deque>
+#include <functional>
+#include <iostream>
+#include <list>
+#include <map>
+#include <memory>
+#include <mutex>
+#include <optional>
+#include <set>
+#include <sstream>
+#include <stdexcept>
+#include <string>
+#include <thread>
+#include <tuple>
+#include <type_traits>
+#include <unordered_map>
+#include <unordered_set>
+#include <vector>
+
+#include "pv_net.h"
+#include "pv_util.h"
+
+#define private public
+#define protected public
 #include <pistache/endpoint.h>
 #include <pistache/http.h>
 #include <pistache/listener.h>
 #include <pistache/peer.h>
 #include <pistache/tcp.h>
 #include <pistache/transport.h>
+#undef private
+#undef protected
 
 #include <algorithm>
 #include <atomic>
@@ -78,11 +112,35 @@ std::atomic<int> g_stale { 0 };
 std::atomic<int> g_more_ms { 30 };   // how long a fresh connection watches for bytes it did not ask for
 std::atomic<int> g_late_running { 0 };
 
+// the worker transports seen by the handlers; their tables are read when every client is gone
+std::mutex g_tr_m;
+std::set<Tcp::Transport*> g_transports;
+void note_transport(Tcp::Transport* t)
+{
+    std::lock_guard<std::mutex> g(g_tr_m);
+    g_transports.insert(t);
+}
+size_t table_entries()
+{
+    std::lock_guard<std::mutex> g(g_tr_m);
+    size_t n = 0;
+    for (auto* t : g_transports)
+    {
+        std::lock_guard<std::mutex> wl(t->toWriteLock);
+        n += t->peers.size() + t->toWrite.size() + t->timers.size();
+    }
+    return n;
+}
+
 class RawHandler : public Tcp::Handler
 {
 public:
     PROTOTYPE_OF(Tcp::Handler, RawHandler)
-    void onConnection(const std::shared_ptr<Tcp::Peer>& peer) override { g_log.add(peer->getID(), 'C'); }
+    void onConnection(const std::shared_ptr<Tcp::Peer>& peer) override
+    {
+        note_transport(transport());
+        g_log.add(peer->getID(), 'C');
+    }
     void onDisconnection(const std::shared_ptr<Tcp::Peer>& peer) override { g_log.add(peer->getID(), 'D'); }
     void onInput(const char* buffer, size_t len, const std::shared_ptr<Tcp::Peer>& peer) override
     {
@@ -121,6 +179,7 @@ public:
     HTTP_PROTOTYPE(HttpHandler)
     void onRequest(const Http::Request& req, Http::ResponseWriter response) override
     {
+        note_transport(transport());
         g_log.add(response.getPeer()->getID(), 'I');
         if (req.resource() == "/slowbig")
         {
@@ -406,6 +465,10 @@ template <typename Client, typename Probe>
 std::string drive(const char* tag, uint16_t port, int rounds, const std::string& behaviours, Client client, Probe probe_round)
 {
     g_stale = 0;
+    {
+        std::lock_guard<std::mutex> g(g_tr_m);
+        g_transports.clear();
+    }
     g_more_ms = behaviours.find_first_of("LK") != std::string::npos ? 300 : 30;
     // warm-up connection, then the idle baseline
     client('c', port);
@@ -415,7 +478,7 @@ std::string drive(const char* tag, uint16_t port, int rounds, const std::string&
     g_log.clear();
     int base = count_fds();
 
-    size_t conns = 0;
+    size_t conns = 0, tables_max = 0;
     for (int r = 0; r < rounds; ++r)
     {
         std::vector<std::thread> ts;
@@ -431,6 +494,13 @@ std::string drive(const char* tag, uint16_t port, int rounds, const std::string&
         // every connection of the round has been released: the next ones get the same descriptor numbers
         for (int k = 0; k < 800 && g_log.count('D') < conns; ++k)
             std::this_thread::sleep_for(std::chrono::milliseconds(5));
+        // every client of the round is gone: no peer, no write queue, no timer may be left in the workers' tables
+        // (read before the fresh connections take the same descriptor numbers and release them again)
+        if (g_log.count('D') >= conns)
+        {
+            std::this_thread::sleep_for(std::chrono::milliseconds(behaviours.find('t') != std::string::npos ? 350 : 10));
+            tables_max = std::max(tables_max, table_entries());
+        }
         size_t n = std::min<size_t>(ts.size(), 8);
         probe_round(n);
         conns += n;
@@ -458,7 +528,7 @@ std::string drive(const char* tag, uint16_t port, int rounds, const std::string&
         os << (i ? "," : "") << logs[i];
     if (logs.empty())
         os << "-";
-    os << " after_disc=" << after << " fd_delta=" << (end - base) << " stale=" << g_stale.load();
+    os << " after_disc=" << after << " fd_delta=" << (end - base) << " stale=" << g_stale.load() << " tables=" << std::max(tables_max, table_entries());
     return os.str();
 }
 } // namespace
